@@ -32,7 +32,7 @@ def strategy(tier):
                    G.search_spec(max_geos=big, min_geos=3, constraint_p=0.3, elig_style='mixed', **kw),
                    G.search_spec(max_geos=big, min_geos=3, constraint_p=0.3, elig_style='fixed-heavy', **kw),
                    G.ratio_boundary_spec(max_geos=8),
-                   G.search_spec(max_geos=big, min_geos=3, constraint_p=0.25, **kw).map(_shared_capped))
+                   G.search_spec(max_geos=big, min_geos=3, constraint_p=0.25, **kw).map(G.shared_capped))
 
 
 def run(spec):
